@@ -37,6 +37,7 @@ impl std::ops::BitAnd<PrivMsgTargetType> for TargetTypeSet {
 impl Copy for TargetTypeSet {}
 impl Clone for TargetTypeSet { #[verifier::external_body] fn clone(&self) -> (r: Self) ensures r == *self { *self } }
 
+//@assumed state/structs.rs get_privmsg_target_type sha=24d54439dc30 units=privmsg
 // ASSUMED (status A, bounded check planned): parses the status prefixes of a PRIVMSG target; bytes().enumerate() + flagset macro types
 pub uninterp spec fn target_type_spec(target: Seq<char>) -> (TargetTypeSet, Seq<char>);
 #[verifier::external_body]
@@ -368,6 +369,12 @@ pub open spec fn activity_only(o: VolatileState, n: VolatileState, me: String) -
     &&& n.channels == o.channels && state_rest_same(o, n)
 }
 
+// the handler runs in two critical sections (deliveries under the read lock, then - if something was delivered - the activity stamp under
+// the write lock): in between the other connections may have run (others_ran); the stamp is this handler's only own change
+pub open spec fn sections_then_stamp(o: VolatileState, n: VolatileState, rid: int, me: String) -> bool {
+    n == o || exists|mid: VolatileState| others_ran(o, mid, rid) && #[trigger] activity_only(mid, n, me)
+}
+
 impl MainState {
 //@fn state/rest_cmds.rs MainState::process_privmsg_notice unit=privmsg2 props=C01,C10,C05,C04 rules=R1,R2,R6,R21
 //@blockcall privmsg_one_target acc=something_done rebind=user_nick
@@ -382,8 +389,8 @@ impl MainState {
             // NOTICE is never answered
             notice ==> final(conn_state).stream.log() == old(conn_state).stream.log(), // @prop C10
             log_extends(old(conn_state).stream.log(), final(conn_state).stream.log()), // @prop C10
-            // the registry is only read; the one thing written is the sender's activity stamp
-            activity_only(*old(state), *final(state), my_nick(*old(conn_state))), // @prop C04
+            // the registry is only read; the one thing written (in a second critical section) is the sender's activity stamp
+            sections_then_stamp(*old(state), *final(state), old(conn_state).receiver.id(), my_nick(*old(conn_state))), // @prop C04
             sym(*final(state)), // @prop C04,C05
             chans_wf(*final(state)), // @prop C04,C08
             no_empty_chan(*final(state)), // @prop C16
@@ -400,15 +407,9 @@ impl MainState {
         let ghost mut order: Seq<Seq<char>> = Seq::empty();
         let ghost mut obs: Seq<Seq<(int, Seq<char>)>> = seq![outbox.log];
         let ghost mut sls: Seq<Seq<FedItem>> = seq![conn_state.stream.log()];
-        proof {
-            assert forall|n: VolatileState| #![trigger state_wf(n)] #![trigger sym(n)] #![trigger chans_wf(n)] #![trigger no_empty_chan(n)] #![trigger wallops_wf(n)] #![trigger counters_wf(n)] #![trigger senders_distinct(n)]
-                activity_only(o, n, me) implies state_wf(n) by { lemma_user_field_wf(o, n, me); }
-            assert(o.users@ =~= o.users@.insert(me, User { last_activity: o.users@[me].last_activity, ..o.users@[me] }));
-            assert(activity_only(o, o, me));
-        }
 //@loop ~for target in  iter=itt
                 invariant
-                    activity_only(o, o, me),
+                    o == *old(state),
                     *state == o, state_wf(o), conn_ok(k0, o), k0 == *old(conn_state), me == my_nick(k0), server == self.config.name@,
                     conn_same_but_stream(*conn_state, k0), // @prop C01
                     // the targets iterated are the distinct ones
@@ -450,10 +451,17 @@ impl MainState {
         proof {
             assert(privmsg_post(server, o, k0, notice, text@, str_views(targets@), old(outbox).log, outbox.log, old(conn_state).stream.log(), conn_state.stream.log()));
         }
-//@close
-        proof {
-            assert(state.users@ =~= o.users@.insert(me, User { last_activity: state.users@[me].last_activity, ..o.users@[me] }));
-            assert(activity_only(o, *state, me));
-        }
+//@before ~let user = state\.users\.get_mut\(user_nick\)\.unwrap\(\);
+                let ghost mid = *state;
+                proof {
+                    assert(others_ran(o, mid, k0.receiver.id()));
+                    assert(mid.users@.contains_key(me) && mid.users@[me].sender.id() == k0.receiver.id());
+                }
+//@after ~user\.last_activity = 
+                proof {
+                    assert(state.users@ =~= mid.users@.insert(me, User { last_activity: state.users@[me].last_activity, ..mid.users@[me] }));
+                    assert(activity_only(mid, *state, me));
+                    lemma_user_field_wf(mid, *state, me);
+                }
 //@end
 }
